@@ -263,9 +263,20 @@ impl KrpcSocket {
 
     fn is_expected_response(&mut self, message: &Message, from: &SocketAddrV4) -> bool {
         // Positive or an error response or to an inflight request.
-        match self.inflight_requests.remove(message.transaction_id) {
-            Some(request) => {
-                if compare_socket_addr(&request.to, from) {
+        // Only consume the inflight request if the response comes from the address
+        // we sent it to, otherwise anyone could cancel our requests by guessing the id.
+        let expected_address = self
+            .inflight_requests
+            .find_by_tid(message.transaction_id)
+            .ok()
+            .and_then(|index| self.inflight_requests.requests.get(index))
+            .map(|request| request.to);
+
+        match expected_address {
+            Some(to) => {
+                if compare_socket_addr(&to, from) {
+                    self.inflight_requests.remove(message.transaction_id);
+
                     return true;
                 } else {
                     trace!(
